@@ -134,6 +134,38 @@ def gen_cases(rng, n, thorough):
                         theta.pop(i, None)
             b = subst(a, theta)
             cases.append((kind, pr(a), pr(b), "positive"))
+        elif mode < 0.62:
+            # inconsistent pair: one *occurrence* of a parameter faces something else than the others (which may face the
+            # parameter itself): no substitution exists, whatever the order in which the occurrences are visited
+            from ..gen_pat import nodes_of, replace_at
+            occ = [(p_, n_) for p_, n_ in nodes_of(a) if n_[0] in ("tp", "ep")]
+            by = {}
+            for p_, n_ in occ:
+                by.setdefault((n_[0], n_[1]), []).append(p_)
+            multi = [k for k, v in by.items() if len(v) >= 2]
+            if not multi:
+                # make one: pair the pattern with itself
+                a = ("tuple", [a, a]) if kind == "type" else (("etuple", [a, a]) if kind == "expr" else a)
+                occ = [(p_, n_) for p_, n_ in nodes_of(a) if n_[0] in ("tp", "ep")]
+                by = {}
+                for p_, n_ in occ:
+                    by.setdefault((n_[0], n_[1]), []).append(p_)
+                multi = [k for k, v in by.items() if len(v) >= 2]
+                if not multi:
+                    continue
+            (pk, i) = rng.choice(multi)
+            theta = {}
+            if rng.random() < 0.5:
+                theta[i] = g.value_for(pk, rng.choice([0, 1]))      # the other occurrences are bound; else they face themselves
+                if (pk == "tp") != (theta[i][0] == "ty"):
+                    theta.pop(i)
+            b = subst(a, theta)
+            path = rng.choice(by[(pk, i)])
+            other = g.value_for(pk, rng.choice([0, 1, 1]))
+            if (pk == "tp") != (other[0] == "ty"):
+                continue
+            b = replace_at(b, path, other[1])
+            cases.append((kind, pr(a), pr(b), "inconsistent"))
         elif mode < 0.8:
             theta = {i: g.value_for(pk, rng.choice([0, 1, 2])) for (pk, i) in ps if rng.random() < 0.8}
             kinds_used = {}
